@@ -283,6 +283,11 @@ func (re *RuleEnv) installCommonModels() {
 					in.Panics(site, "reflect.Value.%s on the zero (Invalid) Value", m)
 				}
 			}
+			if m == "IsNil" && rk == "tv" {
+				// the value a rule function receives is non-zero (zero-skip of every walker, rule C03-SKIP): a
+				// nil slice, map, pointer, func, chan or interface is the zero value of its type
+				return cstBool(false), true
+			}
 			ks := []string{}
 			for _, x := range a[1:] {
 				ks = append(ks, keyOf(x))
